@@ -301,6 +301,9 @@ class _rewrite_captured_vars(ast.NodeTransformer):
                 # If it is something we know how to make into a literal, we just send it down
                 # like that.
                 return as_literal(v)
+            elif inspect.ismethod(v):
+                # A bound method: its source has one parameter more than it is called with.
+                return node
             elif callable(v) and ((lm := safe_parse_wrapper(v)) is not None):
                 return self._resolve_in_own_scope(v, lm)
             else:
